@@ -98,9 +98,14 @@ func findPkgPath(dirPath *pathlib.Path) (string, error) {
 	if err != nil {
 		return "", stackerr.NewStackErr(err)
 	}
-	// modfile.ModulePath understands every valid spelling of the module
-	// directive (tabs, quotes, trailing comments, block form).
-	if moduleName := modfile.ModulePath(fileBytes); moduleName != "" {
+	// Parse the file rather than scan for the directive: the module directive
+	// may be written with tabs, quotes, trailing comments or in block form
+	// (`module ( path )`), which the quick modfile.ModulePath does not read.
+	moduleName := ""
+	if parsed, err := modfile.ParseLax(goModFile.String(), fileBytes, nil); err == nil && parsed.Module != nil {
+		moduleName = parsed.Module.Mod.Path
+	}
+	if moduleName != "" {
 		return pathlib.NewPath(moduleName, pathlib.PathWithSeperator("/")).
 			JoinPath(dirRelative).
 			Clean().
